@@ -9,7 +9,10 @@ A case is a script of events on one archive that starts empty:
   ["c"]                                  clear()                (api stream only)
 Individuals are `creator` classes derived from `list` with a fitness, a class-declared mutable
 attribute `strategy` (a list), a dict attribute `meta` and a scalar attribute `age`, all functions of
-the genome; with `"nest": true` the genome [g0, g1, …] is held as the nested list [[g0], [g1, …]].
+the genome; with `"nest": true` the genome [g0, g1, …] is held as the nested list [[g0], [g1, …]];
+`"cont": "set"|"dict"` builds set-/dict-based individuals (genome = elements / k1,v1,k2,v2,… in insertion
+order; the model sees the canonical sorted form); `"ctor"` is the call form of the constructor
+(`pos`: HallOfFame(m, op) / ParetoFront(op); `kw`: similar=op; `kwall`: maxsize=m, similar=op).
 After every event every object submitted so far is modified in place at every level (inner genome
 lists, strategy, meta, fitness, then the outer list), and the archive must not notice.
 
@@ -24,7 +27,8 @@ streams:  main   the hypotheses of the reading hold (similarity reflexive + symm
 families: exh (all short histories of four small universes), rand, neartie (fitnesses a few 2^-40 apart),
           magnitude (values around 2^70 whose sums absorb small differences), bigbatch (populations of
           11-40 with many duplicates), wide (capacity 16-40 / Pareto fronts of >= 16 with ties on the
-          first objective)
+          first objective), container (set / dict individuals, equal sets in different insertion orders, dicts
+          with equal keys)
 """
 import itertools
 import operator
@@ -40,7 +44,8 @@ RULE = ("exhaustive: every history of <=3 batches of <=2 individuals from 4 univ
         "1 and 2 objectives with mixed weight signs, capacity 1..3, HallOfFame and ParetoFront; random: 1-4 "
         "objectives, <=6 batches of <=5, empty batches, re-submission and in-place modification of submitted "
         "objects, 7 similarity operators; near-tie fitnesses (2^-40 apart), magnitudes 2^70, populations of 11-40 with "
-        "duplicates, capacities 16-40 with first-objective ties; flat and nested genomes, mutable attributes. "
+        "duplicates, capacities 16-40 with first-objective ties; flat and nested genomes, set- and dict-based individuals, "
+        "mutable attributes; every call form of the constructors (positional / keyword similarity). "
         "Non-trivial = distinct case with at least two non-empty updates (or an api script with >= 2 events)")
 EXHAUSTIVE = {"quick": False, "thorough": True}
 TIME_BUDGET = {"quick": 55, "thorough": 840}
@@ -119,15 +124,54 @@ def ilist(xs):
 _classes = {}
 
 
-def classes_for(weights):
-    key = tuple(weights)
+CONTAINERS = {"list": list, "set": set, "dict": dict}
+
+
+def classes_for(weights, container="list"):
+    key = (tuple(weights), container)
     if key not in _classes:
         n = len(_classes)
         fname, iname = "C08Fit%d" % n, "C08Ind%d" % n
         creator.create(fname, base.Fitness, weights=tuple(fl(w) for w in weights))
-        creator.create(iname, list, fitness=getattr(creator, fname), strategy=list)
+        creator.create(iname, CONTAINERS[container], fitness=getattr(creator, fname), strategy=list)
         _classes[key] = getattr(creator, iname)
     return _classes[key]
+
+
+def canon_desc(container, genome):
+    """canonical int list of a described genome: the protocol / model genome.  `genome` lists the elements in
+    insertion order (set: elements; dict: k1, v1, k2, v2, ...)"""
+    if container == "set":
+        return sorted(set(genome))
+    if container == "dict":
+        dd = {}
+        for k, v in zip(genome[0::2], genome[1::2]):
+            dd[k] = v
+        return [x for k in sorted(dd) for x in (k, dd[k])]
+    return list(genome)
+
+
+def canon(ind):
+    """canonical int list of a live individual (list: flattened; set: sorted; dict: sorted items)"""
+    if isinstance(ind, set):
+        return sorted(ind)
+    if isinstance(ind, dict):
+        return [x for k in sorted(ind) for x in (k, ind[k])]
+    return flat(ind)
+
+
+def fill(o, container, genome, nested):
+    """(re)build the content of `o` in place, inserting in the described order"""
+    if container == "set":
+        o.clear()
+        for e in genome:
+            o.add(e)
+    elif container == "dict":
+        o.clear()
+        for k, v in zip(genome[0::2], genome[1::2]):
+            o[k] = v
+    else:
+        o[:] = nest(genome) if nested else list(genome)
 
 
 def nest(genome):
@@ -158,7 +202,7 @@ def meta_of(genome):
 
 
 def gsum(ind):
-    return sum(flat(ind))
+    return sum(canon(ind))
 
 
 def sim_fun(name):
@@ -250,19 +294,19 @@ def state_token(arch, submitted_ids):
     items = []
     for it in arch.items:
         fresh = id(it) not in submitted_ids
-        items.append("%s:%s:%s" % (ilist(flat(it)), slist(exact(it.fitness.wvalues)), "f" if fresh else "s"))
+        items.append("%s:%s:%s" % (ilist(canon(it)), slist(exact(it.fitness.wvalues)), "f" if fresh else "s"))
     keys = [slist(exact(k.wvalues)) for k in arch.keys]
     return "%s#%s" % (";".join(items) if items else "-", ";".join(keys) if keys else "-")
 
 
 def content(arch):
     """(flat genome, weighted values) of the members, and the keys"""
-    return [(tuple(flat(it)), exact(it.fitness.wvalues)) for it in arch.items], [exact(k.wvalues) for k in arch.keys]
+    return [(tuple(canon(it)), exact(it.fitness.wvalues)) for it in arch.items], [exact(k.wvalues) for k in arch.keys]
 
 
 def deep_snapshot(arch):
     """everything observable about the members, at every level"""
-    return ([(type(it).__name__, repr(list(it)), exact(it.fitness.wvalues), repr(getattr(it, "strategy", None)),
+    return ([(type(it).__name__, repr(canon(it)) + repr(list(it) if isinstance(it, list) else None), exact(it.fitness.wvalues), repr(getattr(it, "strategy", None)),
               repr(getattr(it, "age", None)), repr(getattr(it, "meta", None))) for it in arch.items],
             [exact(k.wvalues) for k in arch.keys])
 
@@ -306,10 +350,10 @@ def copies(arch, IndC, nested, submitted):
                 sub_ids.add(id(x))
     sub_ids.discard(id(None))
     for it in arch.items:
-        g = flat(it)
+        g = canon(it)
         if type(it) is not IndC:
             return "member has class %s, the submitted individual %s" % (type(it).__name__, IndC.__name__)
-        if list(it) != (nest(g) if nested else g):
+        if isinstance(it, list) and list(it) != (nest(g) if nested else g):
             return "member genome %r does not have the shape of the submitted genome" % (list(it),)
         if getattr(it, "strategy", None) != strat_of(g) or getattr(it, "age", None) != age_of(g) \
                 or getattr(it, "meta", None) != meta_of(g):
@@ -376,11 +420,20 @@ def evaluate(d):
     kind, m, sim, stream = d["k"], d["m"], d["sim"], d["stream"]
     nested = bool(d.get("nest"))
     w = tuple(d["w"])
-    IndC = classes_for(d["w"])
+    container = d.get("cont", "list")
+    IndC = classes_for(d["w"], container)
     simf = sim_fun(sim)
-    arch = tools.HallOfFame(m, similar=simf) if kind == "hof" else tools.ParetoFront(similar=simf)
+    # every documented call form of the constructors: HallOfFame(maxsize, similar=eq), ParetoFront(similar=eq)
+    ctor = d.get("ctor", "kw")
     if sim == "eq" and d.get("default_sim"):
-        arch = tools.HallOfFame(m) if kind == "hof" else tools.ParetoFront()
+        arch = (tools.HallOfFame(m) if ctor != "kwall" else tools.HallOfFame(maxsize=m)) if kind == "hof" \
+            else tools.ParetoFront()
+    elif ctor == "pos":
+        arch = tools.HallOfFame(m, simf) if kind == "hof" else tools.ParetoFront(simf)
+    elif ctor == "kwall":
+        arch = tools.HallOfFame(maxsize=m, similar=simf) if kind == "hof" else tools.ParetoFront(similar=simf)
+    else:
+        arch = tools.HallOfFame(m, similar=simf) if kind == "hof" else tools.ParetoFront(similar=simf)
     objs = {}             # slot -> live Python object
     submitted = {}        # id(obj) -> obj, everything ever handed to the archive
     shown = []            # contents (genome, wvalues) shown so far
@@ -393,18 +446,18 @@ def evaluate(d):
     def materialise(entry):
         slot, genome, values = entry
         vals = tuple(fl(v) for v in values)
-        body = nest(genome) if nested else list(genome)
         if slot in objs:
-            o = objs[slot]
-            o[:] = body                             # in-place modification of a submitted object
+            o = objs[slot]                          # in-place modification of a submitted object
             flags.add("resub")
         else:
-            o = IndC(body)
+            o = IndC()
             objs[slot] = o
+        fill(o, container, genome, nested)
+        cg = canon_desc(container, genome)
         o.fitness.values = vals
-        o.strategy[:] = strat_of(genome)
-        o.age = age_of(genome)
-        o.meta = meta_of(genome)
+        o.strategy[:] = strat_of(cg)
+        o.age = age_of(cg)
+        o.meta = meta_of(cg)
         wv = exact(o.fitness.wvalues)
         if wv != wvals(w, values):
             raise AssertionError("inexact weighted values")
@@ -420,9 +473,10 @@ def evaluate(d):
                 for entry in ev[1]:
                     o, wv = materialise(entry)
                     pop.append(o)
-                    ptoks.append(ind_token(entry[0], entry[1], wv))
-                    shown.append((tuple(entry[1]), wv))
-                    shown_set.add((tuple(entry[1]), wv))
+                    cg = tuple(canon_desc(container, entry[1]))
+                    ptoks.append(ind_token(entry[0], cg, wv))
+                    shown.append((cg, wv))
+                    shown_set.add((cg, wv))
                 toks.append("u=" + (";".join(ptoks) if ptoks else "-"))
                 for o in pop:
                     submitted[id(o)] = o
@@ -430,9 +484,10 @@ def evaluate(d):
                 n_upd += 1 if pop else 0
             elif op == "i":
                 o, wv = materialise(ev[1])
-                toks.append("i=" + ind_token(ev[1][0], ev[1][1], wv))
-                shown.append((tuple(ev[1][1]), wv))
-                shown_set.add((tuple(ev[1][1]), wv))
+                cg = tuple(canon_desc(container, ev[1][1]))
+                toks.append("i=" + ind_token(ev[1][0], cg, wv))
+                shown.append((cg, wv))
+                shown_set.add((cg, wv))
                 submitted[id(o)] = o
                 arch.insert(o)
             elif op == "r":
@@ -459,7 +514,13 @@ def evaluate(d):
         # deep copies: modify every submitted object in place at every level; the archive must not change
         snap = deep_snapshot(arch)
         for o in submitted.values():
-            for x in o:
+            if container == "set":
+                o.add(-991)
+            elif container == "dict":
+                o[-991] = 5
+                for k in list(o):
+                    o[k] = -7
+            for x in (o if container == "list" else ()):
                 if isinstance(x, list):
                     x.append(991)
                     x[0] = -991
@@ -469,7 +530,7 @@ def evaluate(d):
             o.meta["tags"].append("clobbered")
             o.age = -1
             o.fitness.values = tuple(-5.0 if x > 0 else 5.0 for x in o.fitness.weights)
-            o[:] = [[77], [-77, 7]] if nested else [77, -77, 7]
+            fill(o, container, [77, -77, 7, 7], nested)
         if orc is None and deep_snapshot(arch) != snap:
             orc = "archive content changed when the submitted individuals were modified in place"
         if orc is None and stream in ("main", "viol") and op == "u":
@@ -491,14 +552,16 @@ def evaluate(d):
             if len(after) >= 16:
                 flags.add("len>=16")
             ins = [x for x in after if x not in before]
-            if len(ins) < len(set((tuple(e[1]), wvals(w, e[2])) for e in ev[1])):
+            if len(ins) < len(set((tuple(canon_desc(container, e[1])), wvals(w, e[2])) for e in ev[1])):
                 flags.add("reject")
             if not ev[1]:
                 flags.add("empty-batch")
             if len(ev[1]) > 10:
                 flags.add("batch>10")
     line = "C08 %s %d %s %s" % (kind, m, sim, " ".join(toks))
-    tag = "%s/%s/%s/%s/%s" % (kind, stream, d.get("fam", "exh"), sim, "+".join(sorted(flags)) or "plain")
+    tag = "%s/%s/%s/%s/%s/%s/%s" % (kind, stream, d.get("fam", "exh"), sim, container,
+                                    "default" if d.get("default_sim") and sim == "eq" else ctor,
+                                    "+".join(sorted(flags)) or "plain")
     nontrivial = (n_upd >= 2) or (stream == "api" and len(d["ev"]) >= 2)
     return Case(d, [line], [" ".join(exp)], orc, tag=tag, nontrivial=nontrivial)
 
@@ -701,6 +764,52 @@ def gen_wide(rng, kind):
     return {"k": kind, "m": m, "sim": "eq", "w": w, "stream": "main", "fam": "wide", "default_sim": rng.random() < 0.5, "ev": ev}
 
 
+def gen_container(rng, kind, container):
+    """set- and dict-based individuals (creator classes on `set` as in DEAP's knapsack example, on `dict`):
+    equal sets built in different insertion orders (0, 8, 16, 24 collide in a small hash table, so equal sets
+    iterate differently), dicts with the same keys and different values"""
+    nobj = rng.choice([1, 2])
+    w = [rand_weight(rng) for _ in range(nobj)]
+    sim = rng.choice(["eq", "eq", "eq", "mod3"])
+    if container == "set":
+        pool = [rng.sample([0, 8, 16, 24, 1, 5, 3], rng.choice([1, 2, 2, 3])) for _ in range(rng.randint(2, 6))]
+    else:
+        keys = rng.choice([[0], [0, 1], [0, 1], [2, 1, 0]])
+        pool = [[x for k in keys for x in (k, rng.randint(0, 2))] for _ in range(rng.randint(2, 6))]
+        pool.append([x for k in rng.choice([[0], [1, 2]]) for x in (k, rng.randint(0, 2))])
+    m = rng.choice([1, 2, 2, 3, 3, 4, 6]) if kind == "hof" else 0
+    free = kind == "pf" and rng.random() < 0.5
+    table = {}
+    ev, nslots = [], 0
+    for _ in range(rng.randint(1, 5)):
+        pop = []
+        for _ in range(rng.choice([0, 1, 1, 2, 2, 3, 4])):
+            g = list(rng.choice(pool))
+            if container == "set":
+                rng.shuffle(g)                       # same set, another insertion order
+            else:
+                pairs = list(zip(g[0::2], g[1::2]))
+                rng.shuffle(pairs)
+                g = [x for kv in pairs for x in kv]
+            key = class_key(sim, canon_desc(container, g), None)
+            if free or key not in table:
+                vals = [rand_value(rng, 0, 3) for _ in range(nobj)]
+                if not free:
+                    table[key] = vals
+            else:
+                vals = table[key]
+            if nslots and rng.random() < 0.25:
+                s = rng.randrange(nslots)
+            else:
+                s = nslots
+                nslots += 1
+            same = [e for e in pop if e[0] == s]
+            pop.append(list(same[0]) if same else [s, g, vals])
+        ev.append(["u", pop])
+    return {"k": kind, "m": m, "sim": sim, "w": w, "stream": "main", "fam": "container", "cont": container,
+            "default_sim": rng.random() < 0.7, "ev": ev}
+
+
 def gen_random_viol(rng, kind):
     nobj = rng.choice([1, 2, 2, 3])
     w = [rand_weight(rng) for _ in range(nobj)]
@@ -737,6 +846,15 @@ def gen_random_api(rng, kind):
 
 
 CORNERS = [
+    # similarity passed positionally to ParetoFront (the documented form ParetoFront([similar]))
+    {"k": "pf", "m": 0, "sim": "mod3", "w": ["-1", "-1"], "stream": "main", "fam": "corner", "ctor": "pos",
+     "ev": [["u", [[0, [0], ["1", "1"]]]], ["u", [[1, [3], ["1", "1"]]]]]},
+    # equal sets whose elements were inserted in another order (0 and 8 collide): one member
+    {"k": "hof", "m": 3, "sim": "eq", "w": ["1"], "stream": "main", "fam": "corner", "cont": "set", "default_sim": True,
+     "ev": [["u", [[0, [0, 8], ["1"]]]], ["u", [[1, [8, 0], ["1"]]]]]},
+    # dicts with the same keys and different values are distinct
+    {"k": "hof", "m": 3, "sim": "eq", "w": ["1"], "stream": "main", "fam": "corner", "cont": "dict", "default_sim": True,
+     "ev": [["u", [[0, [0, 1, 1, 2], ["1"]]]], ["u", [[1, [0, 7, 1, 9], ["2"]]]]]},
     {"k": "hof", "m": 0, "sim": "eq", "w": ["1"], "stream": "api", "fam": "corner", "ev": [["u", []], ["u", [[0, [1], ["1"]]]]]},
     {"k": "hof", "m": 1, "sim": "eq", "w": ["1"], "stream": "api", "fam": "corner", "ev": [["r", 0]]},
     {"k": "pf", "m": 0, "sim": "eq", "w": ["1", "1"], "stream": "main", "fam": "corner", "default_sim": True,
@@ -757,10 +875,22 @@ CORNERS = [
 def generate(tier, rng, mult):
     """Which families/streams run never depends on the seed: fixed counts per family, targeted families first
     (the time budget truncates from the end), then the exhaustive enumeration with the random cases spread inside."""
+    for i, d in enumerate(_generate(tier, rng, mult)):
+        if "ctor" not in d:
+            d["ctor"] = CTOR_FORMS[i % 3]           # every call form of the constructors, in every stream
+        yield d
+
+
+CTOR_FORMS = ["pos", "kw", "kwall"]
+
+
+def _generate(tier, rng, mult):
     thorough = tier == "thorough"
     for d in CORNERS:
         yield d
     scale = (10 if thorough else 1) * mult
+    for i in range(300 * scale):
+        yield gen_container(rng, "pf" if i % 3 == 2 else "hof", "set" if i % 2 else "dict")
     for i in range(300 * scale):
         yield gen_random_main(rng, "pf" if i % 3 else "hof", fam="neartie")
     for i in range(200 * scale):
